@@ -25,7 +25,7 @@ RULE = ('case = (kind in cpa|cpa_alt|dpa|anova|nicv|snr|mia(fixed edges)|templat
         '1..6 samples, word shape, history of update(k>=1)/compute/compute-twice operations covering all traces). Non-trivial = at least 2 updates and (a compute strictly between two updates or a batch of one trace); '
         'distinct = digest of the materialised case.')
 LEVEL_TEXT = ('Every generated history is executed on the real object; after each step processed_traces must equal the prefix length, every compute must equal the result of a fresh object fed the same prefix in one batch '
-              '(bit-for-bit for integer-valued data whose sums are exact in the precision, within the rounding of the precision otherwise), and two computes in a row must be bit-identical. '
+              '(within the rounding of the precision; for integer-valued data whose sums are exact the results are in fact bit-identical on this tree, which is counted, not required), and two computes in a row must be bit-identical. '
               'Exploration over sampled data and histories; batches of one trace, computes between any two batches and a last batch of one trace are forced to occur frequently.')
 LEVEL_NOTE = 'trusted: a fresh object fed one batch (its correctness is C03/C04/C13/C14/C09 territory); kernel choices are forced through the SCARED_VERIF hook so that a case replays exactly'
 ASSUMPTIONS = [
@@ -129,17 +129,18 @@ def _tolerances(case, upto, ref):
     return {'result': (np.full(1, 64 * eps * n * scale), None)}
 
 
-def _compare(case, step, upto, got, ref, exact):
+def _compare(case, step, upto, got, ref, exact, ctx=None):
     for key in ref:
         a, b = np.asarray(got[key]), np.asarray(ref[key])
         if a.shape != b.shape:
             raise Violation('step %d: %s has shape %s, a one-batch object on the same %d traces gives %s' % (step, key, a.shape, upto, b.shape), case)
-        if exact:
-            if not dist.same(a, b):
-                d = np.abs(a.astype('float64') - b.astype('float64'))
-                raise Violation('step %d: %s after %d traces differs from the one-batch result although every sum is exact (max |diff| %s)' % (
-                    step, key, upto, float(np.nanmax(d)) if np.isfinite(d).any() else 'NaN pattern'), case)
-        else:
+        if exact and dist.same(a, b):
+            continue
+        if exact and ctx is not None:
+            # the statement allows the rounding of the precision even when all sums are exact (an implementation that updates means
+            # incrementally is not bit-identical across splits): not identical -> fall back to the tolerance, and report how often
+            ctx.count('exact_regime_not_bit_identical')
+        if True:
             tol, skip = _tolerances(case, upto, ref)[key]
             a64, b64 = a.astype('float64').reshape(b.shape), b.astype('float64')
             tolb = np.broadcast_to(tol, b64.shape) if tol.size == 1 else tol.reshape(b64.shape)
@@ -208,7 +209,7 @@ def _run_history(ctx, case):
             twin = _Sut(case)
             twin.update(traces[:pos], data[:pos])
             ref = twin.compute()
-            _compare(case, step, pos, got, ref, exact)
+            _compare(case, step, pos, got, ref, exact, ctx)
         if sut.processed != pos:
             raise Violation('step %d (%s): processed_traces = %s after feeding %d traces' % (step, op[0], sut.processed, pos), case)
     nontrivial = updates >= 2 and (compute_between or size_one)
